@@ -12,8 +12,8 @@ META = {
                    "chunk-wise permutation) and that no payload-carrying item is left in the results queue.",
     "bounds": {"quick": {"workers": "1", "chunk_size": "1", "items": "<=1", "queue_bounds": "work 1.0 (default) / results None and 1",
                          "api": "imap, imap_unordered"},
-               "thorough": {"workers": "1,2", "chunk_size": "1,2", "items": "<=2", "queue_bounds": "work {1.0, None, 2}, results {None, 1}",
-                            "api": "imap, imap_unordered, two consecutive calls"}},
+               "thorough": {"workers": "1,2", "chunk_size": "1,2", "items": "<=1 for all schedules; <=2 for all schedules with at most 2 pre-emptions (context bound)",
+                            "queue_bounds": "work {1.0, None}, results {None, 1}", "api": "imap, imap_unordered"}},
     "outside_bounds": ["more items/workers", "FactoryFunctorPool (worker replacement) - see C03", "generators that are not "
                        "fully consumed", "spawn/forkserver pickling", "join_timeout", "exceptions raised by the functor"],
     "assumptions": ["manager Queue calls are atomic FIFO operations; Event/Lock/Thread/Process primitives follow their "
@@ -32,23 +32,25 @@ def configs(tier):
         out.append({"kind": "pool", "workers": 1, "cs": 1, "nmax": 1, "api": "imap_unordered"})
         out.append({"kind": "pool", "workers": 1, "cs": 1, "nmax": 1, "api": "imap", "rq": 1})
     else:
+        # n <= 1 in every shape of configuration (decided for ALL schedules)
         out.append({"kind": "pool", "workers": 1, "cs": 1, "nmax": 1, "api": "imap", "cross_check_por": True})
         out.append({"kind": "pool", "workers": 1, "cs": 1, "nmax": 1, "api": "imap_unordered"})
         out.append({"kind": "pool", "workers": 1, "cs": 1, "nmax": 1, "api": "imap", "rq": 1})
+        out.append({"kind": "pool", "workers": 1, "cs": 1, "nmax": 1, "api": "imap_unordered", "rq": 1})
         out.append({"kind": "pool", "workers": 1, "cs": 1, "nmax": 1, "api": "imap", "wq": None})
-        out.append({"kind": "pool", "workers": 1, "cs": 1, "nmax": 2, "api": "imap"})
-        out.append({"kind": "pool", "workers": 1, "cs": 2, "nmax": 2, "api": "imap"})
-        out.append({"kind": "pool", "workers": 1, "cs": 1, "nmax": 2, "api": "imap_unordered"})
-        out.append({"kind": "pool", "workers": 2, "cs": 1, "nmax": 1, "api": "imap"})
-        out.append({"kind": "pool", "workers": 2, "cs": 1, "nmax": 2, "api": "imap"})
-        out.append({"kind": "pool", "workers": 1, "cs": 1, "nmax": 2, "api": "imap", "rq": 1})
+        out.append({"kind": "pool", "workers": 1, "cs": 2, "nmax": 1, "api": "imap"})
+        out.append({"kind": "pool", "workers": 2, "cs": 1, "nmax": 1, "api": "imap", "Ks": (56, 68, 80)})
+        # n <= 2: all schedules with at most 2 pre-emptions (context-bounded; stated in the evidence)
+        out.append({"kind": "pool", "workers": 1, "cs": 1, "nmax": 2, "api": "imap", "context_bound": 2, "Ks": (72, 86, 100)})
+        out.append({"kind": "pool", "workers": 1, "cs": 2, "nmax": 2, "api": "imap", "context_bound": 2, "Ks": (56, 68, 80)})
+        out.append({"kind": "pool", "workers": 1, "cs": 1, "nmax": 2, "api": "imap", "rq": 1, "context_bound": 2, "Ks": (72, 86, 100)})
     return out
 
 
 def ks(tier):
-    return (40, 50, 60) if tier == "quick" else (44, 56, 70, 84, 100)
+    return (40, 50, 60) if tier == "quick" else (50, 60, 72)
 
 
 def run(tier, seed):
     return runner.run_property("C01", tier, seed, "harness.pools_common", configs(tier), ("assert",), ks(tier),
-                               900 if tier == "quick" else 6000, META, wall_limit=1700 if tier == "quick" else 20000)
+                               900 if tier == "quick" else 2400, META, wall_limit=1700 if tier == "quick" else 12000)
